@@ -104,6 +104,11 @@ def run_property(prop, root='/repo', timeout_ms=10000, jobs=None, use_cvc5=True,
     t0 = time.time()
     outs = []
     if keys:
-        with ProcessPoolExecutor(max_workers=jobs) as ex:
+        # one fresh process per function (`max_tasks_per_child=1`, started from a fork server that has not built any
+        # z3 term): the solver's effort on a query depends on what its process has solved before, so a re-used worker
+        # would make verdicts near the budget depend on how the pool happened to distribute the work
+        import multiprocessing
+        with ProcessPoolExecutor(max_workers=jobs, max_tasks_per_child=1,
+                                 mp_context=multiprocessing.get_context('forkserver')) as ex:
             outs = list(ex.map(_worker, [(k, root, timeout_ms, domain_n, use_cvc5) for k in keys]))
     return dict(outs=outs, wall_s=time.time() - t0, db=db)
